@@ -671,4 +671,85 @@ theorem inv_pxWithdrawReward {s s' : St} {d c sd : Addr} {e : Ext} (hI : Inv s) 
     have := he.2
     split <;> omega
 
+theorem nv_reject_zero : kUndelReject .nv 0 = true := by decide
+
+theorem blocked_nv_iff {s : St} (hv : s.variant = .nv) :
+    blocked s = false ↔ ∀ h, s.entries.head? = some h → s.now < h.endT := by
+  unfold blocked
+  cases he : s.entries with
+  | nil => simp
+  | cons e r => simp [hv, nv_reject_zero]
+
+theorem inv_block {s s' : St} {t : Int} (hI : Inv s) (h : doBlock s t = .ok s') : Inv s' := by
+  simp only [doBlock] at h
+  split at h; · simp at h
+  rename_i hmono
+  have hR := release_facts t s.ubds s.bank (fun u hu => (hI.ubd0 u hu).2) (ubdNonneg hI)
+  simp only at hR
+  generalize hrel : releaseUbds s.bank t s.ubds = rel at h hR
+  obtain ⟨b1, ub⟩ := rel
+  simp only at h hR
+  obtain ⟨r1, r2, r3, r4, r5⟩ := hR
+  cases hp : payScUnb b1 t s.scUnb with
+  | none => simp [hp] at h
+  | some p =>
+    obtain ⟨b2, sc⟩ := p
+    simp only [hp, Res.ok.injEq] at h
+    subst h
+    obtain ⟨p1, p2, p3, p4, p5, p6⟩ := pay_facts t s.scUnb b1 b2 sc hI.sc0 hp
+    have hnow : s.now ≤ t := by omega
+    have hL : ∀ t', lockedT { s with bank := b2, ubds := ub, scUnb := sc, now := t, height := s.height + 1 } t' = lockedT s t' := fun _ => rfl
+    have hC : custody s ≤ custody { s with bank := b2, ubds := ub, scUnb := sc, now := t, height := s.height + 1 } := by
+      unfold custody
+      have e1 := r1 lock
+      have e2 := r2 lock
+      have e3 := p3 lock
+      cases hv : s.variant <;> simp only [hv] <;> omega
+    constructor
+    · exact hI.ol0
+    · exact hI.ut0
+    · exact hI.dv0
+    · exact hI.df0
+    · show 0 ≤ b2.bal lock fee
+      have := hI.bL0; have := r1 lock; omega
+    · show 0 ≤ b2.bal lock shareD
+      rw [p3, r2]; exact hI.bS0
+    · show 0 ≤ b2.bal "plock" bond
+      have := hI.bP0; omega
+    · exact hI.st0
+    · intro u hu; exact hI.ubd0 u (r5 u hu)
+    · intro u hu; exact hI.sc0 u (p5 u hu)
+    · intro hc t' l ht' hl
+      have := hI.cover hc t' l (by show s.now ≤ t'; have : t ≤ t' := ht'; omega) hl
+      show l - s.DV ≤ b2.bal lock fee
+      have := r1 lock; omega
+    · have := hI.tracked
+      unfold actualDelegated at this ⊢
+      have e2 := r2 lock
+      have e3 := p3 lock
+      cases hv : s.variant <;> simp only [hv] at this ⊢ <;> omega
+    · intro hv hb
+      have hv' : s.variant = .nv := hv
+      have hb2 := (blocked_nv_iff (s := { s with bank := b2, ubds := ub, scUnb := sc, now := t, height := s.height + 1 }) hv).1 hb
+      have hall : ∀ u ∈ s.scUnb, t < u.completion := by
+        intro u hu
+        obtain ⟨hd, hh, hle⟩ := hI.scHead u hu
+        have := hb2 hd hh
+        have : t < hd.endT := this
+        omega
+      obtain ⟨eb, el⟩ := p6 hall
+      have hbs : blocked s = false := (blocked_nv_iff hv').2 (fun hd hh => by have := hb2 hd hh; have : t < hd.endT := this; omega)
+      have := hI.liveNv hv' hbs
+      show s.DV + s.DF ≤ b2.bal lock shareD + sumUnb lock sc
+      rw [el, eb, r2]; exact this
+    · intro u hu; exact hI.scHead u (p5 u hu)
+    · intro hd hh
+      have := hI.headUt hd hh
+      have := hI.ut0
+      show hd.endT ≤ t + s.ut
+      omega
+    · intro hc t' l ht' hl
+      have := hI.cust hc t' l (by show s.now ≤ t'; have : t ≤ t' := ht'; omega) hl
+      omega
+
 end Sunrise.C12
